@@ -805,6 +805,22 @@ def modifies_tables(E, S):
     return f
 
 
+def verify_tables(ctx, S, case):
+    """Guard check after a generated case; a sequence that modified a table entry is reduced before it is saved."""
+    E = S.E
+    changes = S.guard.diff()
+    if changes and case.get("kind") == "sequence":
+        if any("c16:table-modified:%s:%s" % (t, k) not in ctx.found for t, k, _, _, _ in changes):
+            small = shrink_sequence(S, case, modifies_tables(E, S))
+            construct(E, small)
+            if S.guard.diff():
+                case = small
+            else:
+                S.guard.restore()
+                construct(E, case)
+    S.guard.verify(ctx, [case], "while %s was built and evaluated" % label_of(case))
+
+
 def run_call(ctx, S, case):
     """One generated case inside a session (the function Hypothesis drives)."""
     E = S.E
@@ -839,7 +855,7 @@ def run_call(ctx, S, case):
         if bad:
             ctx.count("repeat-differs")
             if not ctx.skip_bucket("c16:repeat-differs"):
-                S.guard.verify(ctx, [case], "while %s was built and evaluated" % label_of(case))
+                verify_tables(ctx, S, case)
                 small = shrink_sequence(S, case, repeat_fails(E))
                 bad = digest_diff(molecule_digest(construct(E, small)[0]), molecule_digest(construct(E, small)[0])) or bad
                 ctx.violation("c16:repeat-differs", "%s built twice in a row in one process reports different values: %s"
@@ -859,7 +875,7 @@ def run_call(ctx, S, case):
         if S.n % 3 == 0 and len(S.remembered) < 4:
             S.remembered.append([0, case, first, []])
     finally:
-        S.guard.verify(ctx, [case], "while %s was built and evaluated" % label_of(case))
+        verify_tables(ctx, S, case)
 
 
 def check_history(ctx, case):
@@ -912,11 +928,14 @@ def task_molecules(ctx, n):
 def tasks(tier):
     if tier == "quick":
         return [("tables", task_tables, {}),
-                ("compounds-a", task_compounds, dict(n=400)),
-                ("compounds-b", task_compounds, dict(n=400)),
-                ("compounds-c", task_compounds, dict(n=400)),
-                ("compounds-d", task_compounds, dict(n=400)),
-                ("molecules", task_molecules, dict(n=400))]
+                ("compounds-a", task_compounds, dict(n=270)),
+                ("compounds-b", task_compounds, dict(n=270)),
+                ("compounds-c", task_compounds, dict(n=270)),
+                ("compounds-d", task_compounds, dict(n=270)),
+                ("compounds-e", task_compounds, dict(n=270)),
+                ("compounds-f", task_compounds, dict(n=270)),
+                ("molecules-a", task_molecules, dict(n=200)),
+                ("molecules-b", task_molecules, dict(n=200))]
     out = [("tables", task_tables, {})]
     for k in range(12):
         out.append(("compounds-%d" % k, task_compounds, dict(n=10000)))
